@@ -19,16 +19,35 @@ TK_chain == {"fund", "varargs", "node"}
 TK_small == {"fund", "unres", "node"}
 TK_chain4 == {"fund", "varargs", "valist", "node"}
 TK_quick == {"fund", "valist", "longlong", "varargs", "unres", "node"}
-\* findings of the implementation layer under C declaration order
-Known_c  == {"alias-to-nonintrospectable-callback"}
-\* ... plus the ones that need a use-before-declaration order (not producible from a C header)
-Known_any == Known_c \cup {"alias-to-nonintrospectable-callback@use-before-declaration",
-                           "alias-to-nonintrospectable-alias@use-before-declaration",
-                           "function-to-nonintrospectable-callback@use-before-declaration",
-                           "callback-to-nonintrospectable-callback@use-before-declaration"}
+K_alias     == {"alias"}
+TK_alias == {"fund", "valist", "node"}
+\* Shapes of Closed violations the implementation-shaped layer is known to reach.
+\* Under C declaration order (the only order a translation unit can produce): none since /repo 8003e8e.
+Known_c  == {}
+\* Under use-before-declaration orders (not producible from a C header; explored to show that the closure
+\* rests on the declaration order: two callable-analysis walks are a fixed point only for chains declared
+\* before use): every owner kind x {alias, callback} target
+Known_ubd == {"alias-to-nonintrospectable-callback@use-before-declaration",
+              "alias-to-nonintrospectable-alias@use-before-declaration",
+              "function-to-nonintrospectable-callback@use-before-declaration",
+              "function-to-nonintrospectable-alias@use-before-declaration",
+              "callback-to-nonintrospectable-callback@use-before-declaration",
+              "callback-to-nonintrospectable-alias@use-before-declaration"}
+Known_any == Known_c \cup Known_ubd
 None == {}
+\* what-if AliasRecheck = FALSE (the code before /repo 8003e8e), C declaration order
 W_alias_cb == {"alias-to-nonintrospectable-callback"}
+\* current code, use-before-declaration orders
 W_alias_alias == {"alias-to-nonintrospectable-alias@use-before-declaration"}
 W_fn_cb == {"function-to-nonintrospectable-callback@use-before-declaration"}
 W_cb_cb == {"callback-to-nonintrospectable-callback@use-before-declaration"}
+\* what-if RenameScopeCheck = FALSE (the code before /repo 207651c)
+W_rename == {"shadows-not-mutual", "shadowed-by-not-mutual"}
+K_fncls == {"function", "class"}
+\* what-if CallableWalks = 1, C declaration order: a method of a record declared before the callback it takes
+W_one_walk == {"method-to-nonintrospectable-callback"}
+K_method == {"record", "callback", "function"}
+K_hosted == {"record", "callback", "alias", "function"}
+TK_method == {"fund", "valist", "node"}
+W_fn_alias == {"function-to-nonintrospectable-alias@use-before-declaration"}
 =============================================================================
